@@ -190,13 +190,13 @@ PROPS = {
         "assumed": ["the node counter additions in recursive_batch_insert_nodes do not overflow (recursive results assumed <= 2^32: machine arithmetic treated as mathematical)"],
     },
     "C04": {
-        "verus": [("tree_node", ["TreeNode.set_child", "lemma_sum"]), "azks_audit", "azks_walk"],
+        "verus": [("tree_node", ["TreeNode.set_child", "lemma_sum"]), "azks_audit", "azks_walk", ("directory_lookup", ["Directory.audit", "Azks.get_latest_epoch"])],
         "search": True,
         "always_search": True,
         "bounded_search": [{"obligation": "replay/c04#all_ranges",
                             "bound": "one fixed 5-epoch history (new labels, updates, a no-op publish, a batch naming one label twice); every pair (s, e) with 0 <= s, e <= current + 1 after every publish; "
                                      "sequential and parallel insertion; both configurations; in-memory database - a cross-check of the whole statement for what lies between the verified units (trie insertion)"}],
-        "scope": "partial: batch_insert_nodes leaves the tree untouched for an empty batch (the recursive insertion and the root write are entered only with a non-empty set - "
+        "scope": "partial: Directory::audit refuses s >= e and e beyond the epoch of the one epoch record it read, and otherwise returns the proof of exactly (s, e) from that epoch record; batch_insert_nodes leaves the tree untouched for an empty batch (the recursive insertion and the root write are entered only with a non-empty set - "
                  "the auditor's start tree of an audit from epoch 0 depends on it) and advances the epoch by one; get_append_only_proof refuses every range with end <= start or end beyond the latest epoch, and for an accepted range returns exactly one proof per epoch "
                  "start..end (epochs list = start, start+1, .., end-1; |proofs| = |epochs|; proof i = the walk for (start+i, start+i+1) from the root as of the latest epoch); "
                  "the walk get_append_only_proof_helper itself (sequential branch, spawned task body and join, all under contract): what it returns equals walk_spec of the stored tree - a subtree not updated after s is reported by its root with the value its parent hashes (the tree root is not reported), "
